@@ -11,7 +11,7 @@ RULE = ("well-formed start poses (2-D and 3-D, 1–3 components, 1–2 people, 2
         "augment2d, normalize (reference points jointly observed and apart), normalize_distribution and back (non-zero deviation), focus (one observed point), zero_filled, copy, torch() / tensorflow() conversion and the "
         "operations those bodies offer; after every step: data shape = (frames, people, header points, header dimensions), confidence shape = (frames, people, points), mask shape = data shape, point missing in all "
         "dimensions ⇔ confidence 0; NumPy sequences end with write → read → compare (up to float32); the modelled prefix of NumPy sequences is run through the Lean model and shapes / missing patterns compared step by step; "
-        "30 % of the NumPy sequences open with one of 14 planned compositions (bbox → strict point selection → bbox, interpolate → torch → selection, …); non-trivial = sequence with ≥ 2 executed steps, distinct by JSON of (pose, operations)")
+        "a third of the NumPy sequences start from the pose as read from its own file, which must still read back as written at the end; 30 % of the NumPy sequences open with one of 14 planned compositions (bbox → strict point selection → bbox, interpolate → torch → selection, …); non-trivial = sequence with ≥ 2 executed steps, distinct by JSON of (pose, operations)")
 ASSUMPTIONS = ["an operation that raises ends the sequence and is counted (distribution: raises:*), not reported: the property constrains the poses that are returned",
                "tensorflow sequences run in a child process; augment2d (tf.matmul) is not chosen on tensorflow bodies of shape (F > 1, 1, N, D): native crash in this sandbox",
                "preconditions are evaluated by the harness on the current pose exactly as the property words them"]
@@ -44,6 +44,9 @@ PLANS = [["bbox", "get_components!", "bbox"], ["bbox", "remove_points", "bbox"],
          ["bbox", "interpolate", "get_components!", "bbox"], ["slice_step", "interpolate", "slice_step"], ["to_torch", "get_components!", "remove_points"]]
 
 
+READ_PLANS = [["focus"], ["focus", "bbox"], ["copy", "focus"], ["normalize_distribution", "focus"], ["focus", "get_components!"], ["flip", "focus", "interpolate"]]
+
+
 def run(ctx):
     rng = ctx.rng
     jobs = []
@@ -54,7 +57,10 @@ def run(ctx):
         start = rng.choice(["numpy"] * 6 + ["torch", "tf"])
         allow_tf = start == "tf" or rng.random() < 0.15
         plan = rng.choice(PLANS) if start == "numpy" and rng.random() < 0.3 else None
-        jobs.append({"case": case, "seed": rng.randrange(10 ** 9), "length": rng.randint(1, ctx.pick(8, 20)), "start": start, "allow_tf": allow_tf, "plan": plan})
+        seed = rng.randrange(10 ** 9)
+        if start == "numpy" and seed % 3 == 0 and plan is None and rng.random() < 0.6:
+            plan = rng.choice(READ_PLANS)                         # the pose comes from a read: in-place operations early on (they edit the object the reader handed out)
+        jobs.append({"case": case, "seed": seed, "length": rng.randint(1, ctx.pick(8, 20)), "start": start, "allow_tf": allow_tf, "plan": plan})
     local = [j for j in jobs if not j["allow_tf"]]
     child = [j for j in jobs if j["allow_tf"]]
     results = [(j, seqexec.run_sequence(j["case"], j["seed"], j["length"], j["start"], False, j.get("plan"))) for j in local]
@@ -75,6 +81,8 @@ def run(ctx):
         info = {"case": j["case"], "seed": j["seed"], "length": j["length"], "start": j["start"], "allow_tf": j["allow_tf"], "plan": j.get("plan"), "ops": res["ops"]}
         if j.get("plan"):
             ctx.count("planned_openings")
+        if res.get("via_read"):
+            ctx.count("started_from_a_read_pose")
         for i, s in enumerate(steps):
             if s.get("broken"):
                 k = s["op"]["k"] if isinstance(s["op"], dict) else s["op"]
@@ -82,7 +90,10 @@ def run(ctx):
                               size=len(j["case"]["body"]["data"]) + 50 * i, signature={"clause": clause_of(s["broken"][0]), "op": k, "backend": s.get("backend")})
                 break
         else:
-            if res.get("roundtrip"):
+            if res.get("history"):
+                ctx.violation("write → read does not reproduce a pose: " + res["history"], info, {"what": res["history"], "ops": [o["k"] for o in res["ops"]]}, True,
+                              size=len(j["case"]["body"]["data"]) + 50 * len(steps), signature={"clause": "history"})
+            elif res.get("roundtrip"):
                 ctx.violation("a reachable NumPy pose does not survive write → read: " + res["roundtrip"].split(":")[0], info, {"what": res["roundtrip"], "ops": [o["k"] for o in res["ops"]]}, True,
                               size=len(j["case"]["body"]["data"]) + 50 * len(steps), signature={"clause": "roundtrip", "what": res["roundtrip"].split(":")[0]})
             elif steps and "error" not in steps[-1] and steps[-1].get("backend") == "numpy":
